@@ -76,6 +76,12 @@ CLAIMED = {
             "symbolic execution of the real MD3 update/give_oracle_label/set_reference/reset with z3 over all call sequences up "
             "to the bound (operation choice, signals, statistics, sensitivity, required label count symbolic) against the "
             "protocol state machine of the statement, with complete-state equality around refused calls"),
+    "C20": ("DESIGN.md 7/C20",
+            "random choices are arbitrary values of their documented support (any seed); class labels of the resampling "
+            "injectors are concrete (dictionary keys); FeatureCoverInjector not claimed (pandas groupby.sample)",
+            "symbolic execution of the real injector classes with z3 on object arrays / DataFrames of symbolic cells: window "
+            "bounds and sampler picks are solver-driven case splits, cell identity outside the window, documented effect "
+            "inside (swap involutions, shift formula, random-walk increments, sampler population and weight vector)"),
     "C13": ("DESIGN.md 7/C13",
             "members modelled as objects exposing drift_state; parameters on their documented domains; z3 LIA; CPython",
             "symbolic execution of election.py with z3: all vote patterns for n<=5/6 members with unbounded integer "
